@@ -32,6 +32,13 @@ def run(chk, prog, tier):
     CV.cover_rule(chk, prog, roles)
     from valib import chunk as CH
     CH.emitter_shape_rules(chk, prog, roles, want=("DEST", "ADV"), rule="ADV")
+    # mnemonics and register names are looked up in lower case: whatever the filter stores is the lower-case form of the input
+    from checks import C16
+    C16.case_rule(chk, prog, roles)
+    # a call that assembled (or failed) in another mode leaves the instance's mode as it was: the next plain call assembles plainly
+    PL.restore_rule(chk, prog, roles, rule="KEEP", fields=("assembly_mode", "chunk_size"))
+    TR.signcmp_rule(chk, tab, prog)
+    CR.radix_rule(chk, prog)
     ngp = sum(1 for r in tab.rows[3:-1] if gp(r))
     chk.floor("general-purpose rows", ngp, 200)
     chk.floor("general-purpose rows matched against the reference", matched, 200)
